@@ -289,58 +289,93 @@ def prep (r0 : Cells) : Cells × Option Str :=
   let r := r.map fun kv => if kv.1 = (k!"type") then (kv.1, dealias kv.2) else kv
   (r, get r0 "parameters")
 
-/-- the body controls one survey row emits, in document order -/
-def rowControls (lists : List Str) (n : Nat) (r0 : Cells) : Except Fail (List Ctl) := do
-  let (r, praw) := prep r0
+/-- guards on the raw row (outside the fragment) -/
+def rowGuards (r0 r : Cells) : Except Fail Unit := do
   guard (keysNodupB r0) (.unsup "duplicate column")
   guard (!has r "control::tag") (.unsup "control::tag")
   guard (!(has r "guidance_hint" || hasPrefix r "guidance_hint::")) (.unsup "guidance_hint")
-  match classify lists n r with
-  | .unsupported w => .error (.unsup w)
-  | .row k =>
-    -- `parameters_generic.parse` runs for every row that has a type and is not disabled
-    let ps ← (match praw, k with
-      | some raw, .skip => if (get r "type").isSome && !(match get r0 "disabled" with | some v => yesNoTrue v | none => false)
-                           then (if (get r "type") = some (k!"audit") then .error (.unsup "audit parameters")
-                                 else if !isAscii raw then .error (.unsup "non-ASCII parameters")
-                                 else match parseParams raw with | some p => pure p | none => .error (.err "parameters syntax"))
-                           else pure []
-      | some raw, _ =>
-        if (get r "type").isNone then pure []
-        else if !isAscii raw then .error (.unsup "non-ASCII parameters")
-        else (match parseParams raw with | some p => pure p | none => .error (.err "parameters syntax"))
-      | none, _ => pure [])
-    guard (keysNodupB ps) (.unsup "duplicate parameter")
-    match k with
-    | .q d other =>
-      let t := (get r "type").getD []
-      let oc : List Ctl := match other with | some _ => [((k!"input"), [])] | none => []
-      match matchSelect t with
-      | some (sel, _, _) =>
-        validateSelectParams ps
-        if d.control then do
-          guard (hasLabel r || hasMedia r || hasHintCell r) (.err "no label or hint")
-          let a := (rowCtlCells r)
-          guard (refFree a && !(lookup (k!"jr:count") a).isSome) (.unsup "reference in attribute")
-          let e := (typeEntry sel).getD []
-          pure ((d.tag, (dupdate (typeCtl e) a).filter fun kv => kv.1 ≠ (k!"tag")) :: oc)
-        else pure oc
-      | none =>
-        validateParams t r ps
-        let e := (typeEntry t).getD []
-        if d.control then do
-          guard (labelled e r) (.err "no label or hint")
-          let a := qAttrs t e r ps
-          guard (refFree a && !(lookup (k!"jr:count") a).isSome) (.unsup "reference in attribute")
-          pure ((d.tag, a) :: oc)
-        else pure oc
-    | .begin_ ct name _ _ =>
-      let c := beginCtl name r
-      guard (refFree c) (.unsup "reference in attribute")
-      match ct with
-      | .rep => pure [((k!"group"), []), ((k!"repeat"), c)]
-      | _ => pure [((k!"group"), c)]
-    | _ => pure []
+
+def parseRaw (raw : Str) : Except Fail Dict :=
+  if !isAscii raw then .error (.unsup "non-ASCII parameters")
+  else match parseParams raw with
+    | some p => .ok p
+    | none => .error (.err "parameters syntax")
+
+/-- `parameters_generic.parse` runs for every row that has a type and is not disabled -/
+def rowParams (r0 r : Cells) (praw : Option Str) (k : RowK) : Except Fail Dict :=
+  match praw, k with
+  | some raw, .skip =>
+    if (get r "type").isSome && !(match get r0 "disabled" with | some v => yesNoTrue v | none => false)
+    then (if (get r "type") = some (k!"audit") then .error (.unsup "audit parameters") else parseRaw raw)
+    else .ok []
+  | some raw, _ => if (get r "type").isNone then .ok [] else parseRaw raw
+  | none, _ => .ok []
+
+def optCtl : Option QData → List Ctl
+  | some d => if d.control then [(d.tag, [])] else []
+  | none => []
+
+/-- attributes of a visible select row's control -/
+def selAttrs (sel : Str) (r : Cells) : Dict :=
+  (dupdate (typeCtl ((typeEntry sel).getD [])) (rowCtlCells r)).filter fun kv => kv.1 ≠ (k!"tag")
+
+/-- validation of one classified row with its cells and parsed parameters (everything that can reject the
+    row or put it outside the fragment) -/
+def emitChecks (k : RowK) (r : Cells) (ps : Dict) : Except Fail Unit :=
+  match k with
+  | .q d _ =>
+    let t := (get r "type").getD []
+    (match matchSelect t with
+     | some (sel, _, _) => do
+       validateSelectParams ps
+       if d.control then do
+         guard (hasLabel r || hasMedia r || hasHintCell r) (.err "no label or hint")
+         guard (refFree (rowCtlCells r) && !(lookup (k!"jr:count") (rowCtlCells r)).isSome) (.unsup "reference in attribute")
+       else pure ()
+     | none => do
+       validateParams t r ps
+       let e := (typeEntry t).getD []
+       if d.control then do
+         guard (labelled e r) (.err "no label or hint")
+         let a := qAttrs t e r ps
+         guard (refFree a && !(lookup (k!"jr:count") a).isSome) (.unsup "reference in attribute")
+       else pure ())
+  | .begin_ _ name _ _ => guard (refFree (beginCtl name r)) (.unsup "reference in attribute")
+  | _ => .ok ()
+
+/-- the body controls a classified row emits, in document order (element name, attributes) -/
+def emitOut (k : RowK) (r : Cells) (ps : Dict) : List Ctl :=
+  match k with
+  | .q d other =>
+    let t := (get r "type").getD []
+    (if d.control then
+      [(d.tag, match matchSelect t with
+               | some (sel, _, _) => selAttrs sel r
+               | none => qAttrs t ((typeEntry t).getD []) r ps)]
+     else []) ++ optCtl other
+  | .begin_ ct name _ helper =>
+    optCtl helper ++
+    (match ct with
+     | .rep => [("group".toList, []), ("repeat".toList, beginCtl name r)]
+     | _ => [("group".toList, beginCtl name r)])
+  | _ => []
+
+/-- the body controls one survey row emits, in document order -/
+def rowControls (lists : List Str) (n : Nat) (r0 : Cells) : Except Fail (List Ctl) :=
+  let r := (prep r0).1
+  match rowGuards r0 r with
+  | .error f => .error f
+  | .ok _ =>
+    match classify lists n r with
+    | .unsupported w => .error (.unsup w)
+    | .row k =>
+      match rowParams r0 r (prep r0).2 k with
+      | .error f => .error f
+      | .ok ps =>
+        if !keysNodupB ps then .error (.unsup "duplicate parameter") else
+        match emitChecks k r ps with
+        | .error f => .error f
+        | .ok _ => .ok (emitOut k r ps)
 
 def allControls (lists : List Str) : Nat → List Cells → Except Fail (List Ctl)
   | _, [] => .ok []
@@ -349,6 +384,16 @@ def allControls (lists : List Str) : Nat → List Cells → Except Fail (List Ct
     | .error f => .error f
     | .ok cs =>
       match allControls lists (n + 1) rs with
+      | .error f => .error f
+      | .ok rest => .ok (cs ++ rest)
+
+def allControlsN (lists : List Str) : List (Nat × Cells) → Except Fail (List Ctl)
+  | [] => .ok []
+  | (n, r) :: rs =>
+    match rowControls lists n r with
+    | .error f => .error f
+    | .ok cs =>
+      match allControlsN lists rs with
       | .error f => .error f
       | .ok rest => .ok (cs ++ rest)
 
